@@ -53,7 +53,8 @@ func c08ServeUntilShutdown(e *Env, rule string) {
 						flags[n] = true
 					}
 				case *ssa.Call:
-					if strings.HasPrefix(ir.CalleeName(&x.Call), "(*sync/atomic.") && strings.HasSuffix(ir.CalleeName(&x.Call), ").Store") && len(x.Call.Args) > 0 {
+					cn := ir.CalleeName(&x.Call)
+					if strings.HasPrefix(cn, "(*sync/atomic.") && (strings.HasSuffix(cn, ").Store") || strings.HasSuffix(cn, ").CompareAndSwap") || strings.HasSuffix(cn, ").Swap")) && len(x.Call.Args) > 0 {
 						if n := fieldOfArg(x.Call.Args[0]); n != "" {
 							flags[n] = true
 						}
